@@ -298,6 +298,13 @@ func c18RunScenario(sc c18Scenario, dir string, watchdog time.Duration, dump fun
 		obs.Final = string(cur.Current)
 	}
 	obs.CsvSpends = n.wallet.CsvSpends()
+	// the goroutine that delivered the last event (possibly one the watcher started) removes the finished swap from
+	// the active set right after SendEvent has returned: give it a moment before looking
+	if cur, err := n.svc.GetSwap(id); err == nil && cur.IsFinished() {
+		for k := 0; k < 400 && n.svc.VerifActiveSwap(id) != nil; k++ {
+			time.Sleep(5 * time.Millisecond)
+		}
+	}
 	obs.Active = n.svc.VerifActiveSwap(id) != nil
 	if !obs.Completed {
 		obs.Blocked = c18BlockedSignature(dump(), sc.Idx)
